@@ -599,12 +599,14 @@ package vm
 // sizes are zero, or if the stack holds fewer items than there are arguments; otherwise it creates
 // the local slot (all Null) and moves the top items of the stack into the argument slot in order.
 //@ func (*Slot).init
+//@ opt uncovered 1
 //@ requires s != nil && rc != nil && n >= 0 && n <= 255 && -2147483648 <= *rc && *rc <= 2147483647
 //@ requires[nopanic] *s == nil
 //@ modifies *s, *rc
 //@ ensures[size] *s != nil && len(*s) == n && fresh(*s) && forall(i, 0, n, (*s)[i] == nil)
 //@ ensures[count] *rc == old(*rc) + n
 //@ func (*Slot).initFromStack
+//@ opt uncovered 1
 //@ opt frame off
 //@ opt callers trust
 //@ requires s != nil && t != nil && n >= 0
